@@ -24,6 +24,9 @@ class Module:
         self.digest = hashlib.sha256(src.encode("utf-8")).hexdigest()
         self.tree = ast.parse(src, filename=path)
         self.lines = src.splitlines()
+        # alpha-normalise locals back to the names the rules use (see sa/localsig.py); in-memory only
+        from . import localsig
+        self.renamed_locals = localsig.normalise(self.tree, name)
 
 
 class Func:
